@@ -988,3 +988,350 @@ Print Assumptions kernel_depends_on_consumed_only.
 Print Assumptions switch_once.
 Print Assumptions switch_once_nth.
 Print Assumptions switch_never.
+
+(* ========================================================================================== *)
+(* Part D: the ESH update is a flow in delta (z multiplies), and the microcanonical leapfrog    *)
+(*         step is time-reversible                                                              *)
+(* ========================================================================================== *)
+Local Open Scope Q_scope.
+
+(* ---- componentwise Qeq of vectors ---- *)
+Lemma F2Q_refl : forall l : list Q, Forall2 Qeq l l.
+Proof. induction l; constructor; [reflexivity | assumption]. Qed.
+
+Lemma F2Q_sym : forall x y : list Q, Forall2 Qeq x y -> Forall2 Qeq y x.
+Proof. induction 1; constructor; [symmetry|]; assumption. Qed.
+
+Lemma F2Q_trans : forall x y z : list Q, Forall2 Qeq x y -> Forall2 Qeq y z -> Forall2 Qeq x z.
+Proof.
+  intros x y z H; revert z; induction H as [|a b x y Hab _ IH]; intros z Hz; inversion Hz; subst;
+    constructor; [etransitivity; eassumption | apply IH; assumption].
+Qed.
+
+Lemma F2Q_length : forall x y : list Q, Forall2 Qeq x y -> length x = length y.
+Proof. induction 1; cbn [length]; congruence. Qed.
+
+Lemma qdot_F2Q : forall x x' y y',
+  Forall2 Qeq x x' -> Forall2 Qeq y y' -> qdot x y == qdot x' y'.
+Proof.
+  intros x x' y y' H; revert y y'; induction H as [|a a' x x' Ha _ IH]; intros y y' Hy;
+    inversion Hy as [|b b' t t' Hb Ht]; subst; cbn [qdot]; try reflexivity.
+  rewrite Ha, Hb, (IH _ _ Ht). reflexivity.
+Qed.
+
+Lemma qmap2_F2Q : forall F F' : Q -> Q -> Q,
+  (forall a a' b b', a == a' -> b == b' -> F a b == F' a' b') ->
+  forall x x' y y', Forall2 Qeq x x' -> Forall2 Qeq y y' ->
+  Forall2 Qeq (qmap2 F x y) (qmap2 F' x' y').
+Proof.
+  intros F F' HF x x' y y' H; revert y y'; induction H as [|a a' x x' Ha _ IH]; intros y y' Hy;
+    inversion Hy as [|b b' t t' Hb Ht]; subst; cbn [qmap2]; constructor.
+  - apply HF; assumption.
+  - apply IH; assumption.
+Qed.
+
+Lemma qmap2_F2Q_same : forall F F' : Q -> Q -> Q,
+  (forall a b, F a b == F' a b) ->
+  forall x y, Forall2 Qeq (qmap2 F x y) (qmap2 F' x y).
+Proof.
+  intros F F' HF x; induction x as [|a x IH]; intros [|b y]; cbn [qmap2]; constructor;
+    [apply HF | apply IH].
+Qed.
+
+Lemma qmap2_F2Q_snd : forall F : Q -> Q -> Q,
+  (forall a b, F a b == b) ->
+  forall x y, length x = length y -> Forall2 Qeq (qmap2 F x y) y.
+Proof.
+  intros F HF x; induction x as [|a x IH]; intros [|b y] Hl; cbn [qmap2]; try discriminate;
+    constructor; [apply HF | apply IH; injection Hl as Hl; exact Hl].
+Qed.
+
+Lemma map_qmap2 : forall (f : Q -> Q) (h : Q -> Q -> Q) x y,
+  map f (qmap2 h x y) = qmap2 (fun a b => f (h a b)) x y.
+Proof.
+  intros f h x; induction x as [|a x IH]; intros [|b y]; cbn [qmap2 map]; try reflexivity.
+  rewrite IH. reflexivity.
+Qed.
+
+Lemma qmap2_qmap2_r : forall (F G : Q -> Q -> Q) x y,
+  qmap2 F x (qmap2 G x y) = qmap2 (fun a b => F a (G a b)) x y.
+Proof.
+  intros F G x; induction x as [|a x IH]; intros [|b y]; cbn [qmap2]; try reflexivity.
+  rewrite IH. reflexivity.
+Qed.
+
+Lemma qmap2_length : forall (F : Q -> Q -> Q) x y,
+  length x = length y -> length (qmap2 F x y) = length y.
+Proof.
+  intros F x; induction x as [|a x IH]; intros [|b y] Hl; cbn [qmap2 length]; try discriminate;
+    try reflexivity.
+  injection Hl as Hl. rewrite (IH y Hl). reflexivity.
+Qed.
+
+Lemma esh_update_length : forall ghat p z,
+  length ghat = length p -> length (esh_update ghat p z) = length p.
+Proof.
+  intros ghat p z Hl. unfold esh_update, esh_raw. rewrite map_length. apply qmap2_length, Hl.
+Qed.
+
+Lemma qdot_comb_l : forall (a b : Q) (g p : list Q),
+  length g = length p ->
+  qdot (qmap2 (fun gi pi => a * gi + b * pi) g p) g == a * qdot g g + b * qdot p g.
+Proof.
+  intros a b g; induction g as [|x g IH]; intros [|y p] Hl; cbn [qdot qmap2]; try discriminate.
+  - ring.
+  - injection Hl as Hl. rewrite (IH p Hl). ring.
+Qed.
+
+Lemma qdot_map_div_l : forall c u v, qdot (map (fun x => x / c) u) v == qdot u v / c.
+Proof.
+  intros c u; induction u as [|x u IH]; intros [|y v]; cbn [qdot map]; try (unfold Qdiv; ring).
+  rewrite IH. unfold Qdiv. ring.
+Qed.
+
+(* ---- alpha after one update, in closed form ---- *)
+Lemma esh_alpha_update : forall (ghat p : list Q) (z : Q),
+  length ghat = length p -> qdot ghat ghat == 1 ->
+  esh_alpha ghat (esh_update ghat p z)
+  == (1 + esh_alpha ghat p - (1 - esh_alpha ghat p) * z * z) / esh_norm (esh_alpha ghat p) z.
+Proof.
+  intros ghat p z Hl Hg. unfold esh_alpha at 1. unfold esh_update, esh_raw.
+  rewrite qdot_map_div_l, (qdot_comb_l _ _ ghat p Hl), Hg.
+  fold (esh_alpha ghat p). unfold esh_coeff_g, Qdiv. ring.
+Qed.
+
+Lemma esh_update_pointwise : forall ghat p z,
+  esh_update ghat p z =
+  qmap2 (fun g pi => (esh_coeff_g (esh_alpha ghat p) z * g + 2 * z * pi)
+                     / esh_norm (esh_alpha ghat p) z) ghat p.
+Proof. intros. unfold esh_update, esh_raw. apply map_qmap2. Qed.
+
+(* ---- one component of two successive updates ---- *)
+Lemma esh_compose_scalar : forall a a' z1 z2 g x,
+  ~ esh_norm a z1 == 0 -> ~ esh_norm a (z1 * z2) == 0 ->
+  a' == (1 + a - (1 - a) * z1 * z1) / esh_norm a z1 ->
+  (esh_coeff_g a' z2 * g + 2 * z2 * ((esh_coeff_g a z1 * g + 2 * z1 * x) / esh_norm a z1))
+    / esh_norm a' z2
+  == (esh_coeff_g a (z1 * z2) * g + 2 * (z1 * z2) * x) / esh_norm a (z1 * z2).
+Proof.
+  intros a a' z1 z2 g x H1 H12 Ha. unfold esh_coeff_g, esh_norm in *. rewrite Ha.
+  field. split; [assumption|]. split; [assumption|].
+  intro E. apply H12. lra.
+Qed.
+
+(* ---- the update composes: delta adds up, z = exp(-delta) multiplies ---- *)
+Theorem esh_update_compose : forall (ghat p : list Q) (z1 z2 : Q),
+  length ghat = length p -> qdot ghat ghat == 1 -> qdot p p == 1 -> ~ z1 == 0 -> ~ z2 == 0 ->
+  Forall2 Qeq (esh_update ghat (esh_update ghat p z1) z2) (esh_update ghat p (z1 * z2)).
+Proof.
+  intros ghat p z1 z2 Hl Hg Hp Hz1 Hz2.
+  destruct (esh_alpha_bounds ghat p Hl Hg Hp) as [Hlo Hhi].
+  assert (Hz12 : ~ z1 * z2 == 0).
+  { intro E. destruct (Qmult_integral _ _ E); contradiction. }
+  pose proof (esh_norm_pos _ z1 Hz1 Hlo Hhi) as HN1.
+  pose proof (esh_norm_pos _ (z1 * z2) Hz12 Hlo Hhi) as HN12.
+  pose proof (esh_alpha_update ghat p z1 Hl Hg) as Ha'.
+  rewrite (esh_update_pointwise ghat (esh_update ghat p z1) z2).
+  set (a' := esh_alpha ghat (esh_update ghat p z1)) in *.
+  rewrite (esh_update_pointwise ghat p z1), (esh_update_pointwise ghat p (z1 * z2)).
+  rewrite qmap2_qmap2_r.
+  apply qmap2_F2Q_same. intros g x.
+  apply esh_compose_scalar; [lra | lra | exact Ha'].
+Qed.
+
+(* z = 1 (delta = 0) is the identity *)
+Lemma esh_update_one : forall (ghat p : list Q) (w : Q),
+  length ghat = length p -> w == 1 -> Forall2 Qeq (esh_update ghat p w) p.
+Proof.
+  intros ghat p w Hl Hw. rewrite esh_update_pointwise.
+  apply qmap2_F2Q_snd; [|exact Hl]. intros g x.
+  unfold esh_coeff_g, esh_norm. rewrite Hw. field. lra.
+Qed.
+
+(* the step with z2 = 1 / z1 (delta -> -delta) undoes the step with z1 *)
+Theorem esh_update_inverse_gen : forall (ghat p : list Q) (z1 z2 : Q),
+  length ghat = length p -> qdot ghat ghat == 1 -> qdot p p == 1 -> z1 * z2 == 1 ->
+  Forall2 Qeq (esh_update ghat (esh_update ghat p z1) z2) p.
+Proof.
+  intros ghat p z1 z2 Hl Hg Hp Hz.
+  assert (Hz1 : ~ z1 == 0) by (intro E; rewrite E in Hz; lra).
+  assert (Hz2 : ~ z2 == 0) by (intro E; rewrite E in Hz; lra).
+  eapply F2Q_trans; [apply esh_update_compose; assumption|].
+  apply esh_update_one; assumption.
+Qed.
+
+Theorem esh_update_inverse : forall (ghat p : list Q) (z : Q),
+  length ghat = length p -> qdot ghat ghat == 1 -> qdot p p == 1 -> ~ z == 0 ->
+  Forall2 Qeq (esh_update ghat (esh_update ghat p z) (/ z)) p.
+Proof.
+  intros ghat p z Hl Hg Hp Hz. apply esh_update_inverse_gen; try assumption.
+  apply Qmult_inv_r, Hz.
+Qed.
+
+(* ---- the update respects componentwise Qeq in all three arguments ---- *)
+Lemma esh_update_F2Q : forall g g' p p' z z',
+  Forall2 Qeq g g' -> Forall2 Qeq p p' -> z == z' ->
+  Forall2 Qeq (esh_update g p z) (esh_update g' p' z').
+Proof.
+  intros g g' p p' z z' Hg Hp Hz. rewrite !esh_update_pointwise.
+  assert (Ha : esh_alpha g p == esh_alpha g' p') by (unfold esh_alpha; apply qdot_F2Q; assumption).
+  apply qmap2_F2Q; try assumption.
+  intros a a' b b' Hab Hb. unfold esh_coeff_g, esh_norm. rewrite Ha, Hz, Hab, Hb. reflexivity.
+Qed.
+
+(* the position drift with the opposite sign, along a momentum equal up to Qeq, is undone *)
+Lemma drift_undo : forall (d d' : Q) (q p r : list Q),
+  d' == - d -> length q = length p -> Forall2 Qeq r p ->
+  Forall2 Qeq (qmap2 (fun a b => a + d' * b) (qmap2 (fun a b => a + d * b) q p) r) q.
+Proof.
+  intros d d' q; induction q as [|x q IH]; intros [|y p] r Hd Hl Hr; try discriminate;
+    inversion Hr as [|w y' r' p' Hw Hr']; subst; cbn [qmap2]; constructor.
+  - rewrite Hd, Hw. ring.
+  - apply IH; [exact Hd | injection Hl as Hl; exact Hl | exact Hr'].
+Qed.
+
+Section MicroReversible.
+  Variable ghat_of : list Q -> list Q.
+  Variable z_of : list Q -> Q.
+  Variable c : Q.
+  Variable n : nat.           (* the dimension; all hypotheses are about positions of length n *)
+  Hypothesis ghat_len : forall x, length x = n -> length (ghat_of x) = n.
+  Hypothesis ghat_unit : forall x, length x = n -> qdot (ghat_of x) (ghat_of x) == 1.
+  Hypothesis z_nz : forall x, length x = n -> ~ z_of x == 0.
+  (* positions equal up to Qeq (1/2 vs 2/4) give the same direction and the same z, up to Qeq *)
+  Hypothesis pos_compat : forall x y, length x = n ->
+    Forall2 Qeq x y -> Forall2 Qeq (ghat_of x) (ghat_of y) /\ z_of x == z_of y.
+
+  (* a step with (zz, d) followed by a step with (zz', d'), where zz' = 1 / zz and d' = - d *)
+  Lemma micro_core : forall (zz zz' : list Q -> Q) (d d' : Q),
+    (forall x, length x = n -> zz x * zz' x == 1) ->
+    (forall x y, length x = n -> Forall2 Qeq x y -> zz' x == zz' y) ->
+    d' == - d ->
+    forall q p, length q = n -> length p = n -> qdot p p == 1 ->
+    let p1 := esh_update (ghat_of q) p (zz q) in
+    let q1 := qmap2 (fun a b => a + d * b) q p1 in
+    let p2 := esh_update (ghat_of q1) p1 (zz q1) in
+    let r1 := esh_update (ghat_of q1) p2 (zz' q1) in
+    let q2 := qmap2 (fun a b => a + d' * b) q1 r1 in
+    let r2 := esh_update (ghat_of q2) r1 (zz' q2) in
+    Forall2 Qeq q2 q /\ Forall2 Qeq r2 p.
+  Proof.
+    intros zz zz' d d' Hinv Hcompat Hd q p Hq Hl Hp p1 q1 p2 r1 q2 r2.
+    assert (Hg0 : length (ghat_of q) = length p) by (rewrite ghat_len; congruence).
+    assert (Hzq : ~ zz q == 0) by (intro E; pose proof (Hinv q Hq) as H; rewrite E in H; lra).
+    assert (Hp1u : qdot p1 p1 == 1) by (apply esh_unit_norm_gen; auto).
+    assert (Hp1l : length p1 = length p) by (apply esh_update_length; exact Hg0).
+    assert (Hqp1 : length q = length p1) by congruence.
+    assert (Hq1l : length q1 = length p1) by (apply qmap2_length; exact Hqp1).
+    assert (Hq1 : length q1 = n) by congruence.
+    assert (Hg1 : length (ghat_of q1) = length p1) by (rewrite ghat_len; congruence).
+    assert (Hr1 : Forall2 Qeq r1 p1) by (apply esh_update_inverse_gen; auto).
+    assert (Hq2 : Forall2 Qeq q2 q) by (apply drift_undo; assumption).
+    assert (Hq2l : length q2 = n) by (rewrite (F2Q_length _ _ Hq2); exact Hq).
+    split; [exact Hq2|].
+    destruct (pos_compat q2 q Hq2l Hq2) as [Hg _].
+    eapply F2Q_trans.
+    - apply esh_update_F2Q; [exact Hg | exact Hr1 | apply Hcompat; [exact Hq2l | exact Hq2]].
+    - apply esh_update_inverse_gen; auto.
+  Qed.
+
+  (* either direction first *)
+  Theorem micro_step_reversible_dir : forall (fwd : bool) (q p : list Q),
+    length q = n -> length p = n -> qdot p p == 1 ->
+    let s := micro_step ghat_of z_of c fwd q p in
+    let s' := micro_step ghat_of z_of c (negb fwd) (fst s) (snd s) in
+    Forall2 Qeq (fst s') q /\ Forall2 Qeq (snd s') p.
+  Proof.
+    intros [|] q p Hq Hl Hp.
+    - refine (micro_core z_of (fun x => / z_of x) c (- c) _ _ _ q p Hq Hl Hp).
+      + intros x Hx. apply Qmult_inv_r, z_nz, Hx.
+      + intros x y Hx H. destruct (pos_compat x y Hx H) as [_ E]. rewrite E. reflexivity.
+      + reflexivity.
+    - refine (micro_core (fun x => / z_of x) z_of (- c) c _ _ _ q p Hq Hl Hp).
+      + intros x Hx. rewrite Qmult_comm. apply Qmult_inv_r, z_nz, Hx.
+      + intros x y Hx H. apply (pos_compat x y Hx H).
+      + ring.
+  Qed.
+
+  (* forward then backward *)
+  Theorem micro_step_reversible : forall (q p : list Q),
+    length q = n -> length p = n -> qdot p p == 1 ->
+    let (q1, p1) := micro_step ghat_of z_of c true q p in
+    let (q2, p2) := micro_step ghat_of z_of c false q1 p1 in
+    Forall2 Qeq q2 q /\ Forall2 Qeq p2 p.
+  Proof. intros q p Hq Hl Hp. exact (micro_step_reversible_dir true q p Hq Hl Hp). Qed.
+
+  (* backward then forward *)
+  Theorem micro_step_reversible_bwd : forall (q p : list Q),
+    length q = n -> length p = n -> qdot p p == 1 ->
+    let (q1, p1) := micro_step ghat_of z_of c false q p in
+    let (q2, p2) := micro_step ghat_of z_of c true q1 p1 in
+    Forall2 Qeq q2 q /\ Forall2 Qeq p2 p.
+  Proof. intros q p Hq Hl Hp. exact (micro_step_reversible_dir false q p Hq Hl Hp). Qed.
+End MicroReversible.
+
+(* ---- non-vacuity ---- *)
+(* a position-dependent direction field and z on dimension 2 satisfying the four hypotheses of
+   MicroReversible (no direction field can satisfy them on dimension 0, hence the parameter n) *)
+Definition ex_ghat (x : list Q) : list Q :=
+  if Qle_bool 0 (hd 0 x) then [3 # 5; 4 # 5] else [1; 0].
+Definition ex_z (x : list Q) : Q := 1 / (1 + hd 0 x * hd 0 x).
+
+Lemma ex_hd_compat : forall x y, Forall2 Qeq x y -> hd 0 x == hd 0 y.
+Proof. intros x y [|a b x' y' H _]; cbn [hd]; [reflexivity | exact H]. Qed.
+
+Lemma ex_micro_hyps :
+  (forall x, length x = 2%nat -> length (ex_ghat x) = 2%nat) /\
+  (forall x, length x = 2%nat -> qdot (ex_ghat x) (ex_ghat x) == 1) /\
+  (forall x, length x = 2%nat -> ~ ex_z x == 0) /\
+  (forall x y, length x = 2%nat -> Forall2 Qeq x y ->
+     Forall2 Qeq (ex_ghat x) (ex_ghat y) /\ ex_z x == ex_z y).
+Proof.
+  split; [|split; [|split]].
+  - intros x _. unfold ex_ghat. destruct (Qle_bool 0 (hd 0 x)); reflexivity.
+  - intros x _. unfold ex_ghat. destruct (Qle_bool 0 (hd 0 x)); reflexivity.
+  - intros x _. unfold ex_z. set (a := hd 0 x). intro E.
+    assert (Hpos : ~ 1 + a * a == 0) by nra.
+    assert (H : (1 + a * a) * (1 / (1 + a * a)) == 1) by (field; exact Hpos).
+    rewrite E in H. lra.
+  - intros x y _ H. pose proof (ex_hd_compat x y H) as Hh. unfold ex_ghat, ex_z. split.
+    + rewrite Hh. apply F2Q_refl.
+    + rewrite Hh. reflexivity.
+Qed.
+
+(* the hypotheses of the inverse / reversibility theorems are satisfiable, and the round trip
+   returns the starting point, on concrete vectors *)
+Example esh_inverse_concrete :
+  let ghat := [3 # 5; 4 # 5] in let p := [0; 1] in let z := 1 # 2 in
+  length ghat = length p /\ qdot ghat ghat == 1 /\ qdot p p == 1 /\ ~ z == 0 /\
+  map Qred (esh_update ghat p z) = [57 # 185; 176 # 185] /\
+  map Qred (esh_update ghat (esh_update ghat p z) (/ z)) = p.
+Proof. cbv zeta. repeat split; try (vm_compute; reflexivity). intro H; vm_compute in H; discriminate. Qed.
+
+(* forward then backward from q = (-1/2, -2), p = (0, 1) with c = 3: the step crosses the two
+   branches of ex_ghat; the starting point is recovered *)
+Example micro_roundtrip_concrete :
+  let s := micro_step ex_ghat ex_z 3 true [-1 # 2; -2 # 1] [0; 1] in
+  let s' := micro_step ex_ghat ex_z 3 false (fst s) (snd s) in
+  map Qred (fst s) = [13 # 82; 38 # 41] /\
+  map Qred (fst s') = [-1 # 2; -2 # 1] /\ map Qred (snd s') = [0; 1].
+Proof. vm_compute. repeat split. Qed.
+
+Print Assumptions esh_update_compose.
+Print Assumptions esh_update_inverse_gen.
+Print Assumptions esh_update_inverse.
+Print Assumptions micro_step_reversible_dir.
+Print Assumptions micro_step_reversible.
+Print Assumptions micro_step_reversible_bwd.
+Print Assumptions esh_inverse_concrete.
+Print Assumptions ex_micro_hyps.
+Print Assumptions micro_roundtrip_concrete.
+
+(* micro_step is micro_step_inputs at the values of ghat_of / z_of along the step *)
+Lemma micro_step_is_inputs :
+  forall (ghat_of : list Q -> list Q) (z_of : list Q -> Q) (c : Q) (fwd : bool) (q p : list Q),
+    let q1 := fst (micro_step ghat_of z_of c fwd q p) in
+    let zz := fun x => if fwd then z_of x else / z_of x in
+    micro_step ghat_of z_of c fwd q p =
+    micro_step_inputs (ghat_of q) (ghat_of q1) (zz q) (zz q1) (if fwd then c else - c) q p.
+Proof. intros. unfold micro_step, micro_step_inputs. destruct fwd; reflexivity. Qed.
